@@ -67,14 +67,26 @@ def setup(tier, seed):
     return {'real': real, 'hooks': hooks, 'samples': samples}
 
 
-def observe(ctx, text):
+def debug_options(k):
+    import io
+
+    class D:
+        debug_filename = bool(k & 1)
+        debug_parser = bool(k & 2)
+        debug_generator = bool(k & 4)
+        current_source_file = 'c10.prolog'
+        outf = io.StringIO()
+    return D
+
+
+def observe(ctx, text, options=None):
     real, hooks = ctx['real'], ctx['hooks']
     real.antlr.take()
     hooks.consumed = None
     out = None
     exc = None
     try:
-        out = real.Cm.compile_prolog_from_string(text, Ctx)
+        out = real.Cm.compile_prolog_from_string(text, options or Ctx)
     except RecursionError:
         exc = 'RecursionError'
     except Exception as e:
@@ -96,6 +108,14 @@ def judge(ctx, text, c):
     an = recog.analyse(text)
     out, exc, ev, consumed = observe(ctx, text)
     c['strings_checked'] = c.get('strings_checked', 0) + 1
+    if an['accept'] is False and (hash(text) & 7) == 0:
+        # the same text with debug options switched on must be rejected as well
+        k = 1 + (hash(text) >> 3) % 7
+        out2, exc2, ev2, consumed2 = observe(ctx, text, debug_options(k))
+        c['rejected_strings_with_debug_options'] = c.get('rejected_strings_with_debug_options', 0) + 1
+        if exc2 is None:
+            return {'kind': 'accepted_text_outside_grammar_with_debug_options', 'detail': {'options': k, 'recogniser': an['reason'],
+                                                                                               'antlr_events': ev2[:2]}, 'witness': {'text': text, 'options': k}}, an
     if an['accept'] is None:
         c['recogniser_gave_up'] = c.get('recogniser_gave_up', 0) + 1
         return None, an
